@@ -266,7 +266,25 @@ def rule_r2(facts, rep, rid="C09-R2"):
         gets = [x for x in fb.walk(g.body) if x.get("k") == "mcall" and (fb.callee(x) or "").endswith("HashMap::get")]
         own_id = bool(gets) and all(("field", "id") in cg_.mentions(x["args"][0]) for x in gets)
         # the recursion is the answer exactly when there is no entry: it sits on the None / unwrap_or_else / else edge of the lookup
-        if from_entry(pk, 0) and from_entry(pt, 1) and own_id:
+        # ... and under no other condition: every test on the way to the recursion (crossing `unwrap_or_else(|| ..)` closures, including
+        # early exits in front of it) is about the map lookup
+        from .common import facts_at, controlling_tests
+        extra = []
+        cur = rec[0]
+        for _hop in range(4):
+            tests = [e for e, _pol in facts_at(cg_, cur)] + [e for e, _pol in controlling_tests(cg_, cur) if e is not None]
+            for e in tests:
+                m_ = cg_.mentions(e) | cg_.vprov(e)
+                if not (q.has_call(m_, "HashMap::get") or q.has_call(m_, "HashMap::contains_key")):
+                    extra.append(fb.show(e)[:50])
+            clo = next((p for p in cg_.parents(cur) if p.get("k") == "closure"), None)
+            if clo is None:
+                break
+            cur = clo
+        if extra:
+            rep.violation(rid, key, "on the edge without a map entry the children are walked only under `%s`: sections below the nodes for which it fails are not extracted "
+                          "(or their subtree is dropped)" % extra[0], loc(g, rec[0]))
+        elif from_entry(pk, 0) and from_entry(pt, 1) and own_id:
             rep.ok(rid, key, "id in map -> Reference{key, text} from that id's map entry; else every child recursively", g.loc)
         else:
             rep.violation(rid, key, "the replacing reference is not built from the (key, text) entry stored under this node's id (key from %s, text from %s)" % (
